@@ -59,6 +59,13 @@ fn request(u: &unimock::Unimock, which: OwnKind, x: u8, hold: &mut Vec<Box<dyn s
             hold.push(Box::new(t));
             r
         }
+        OwnKind::Tup3 => {
+            let (n, t1, t2) = u.own_tup3(x);
+            let r = (t1.id, t1.intact() && t2.intact() && t2.id == t1.id + 1 && *n == 7);
+            hold.push(Box::new(t1));
+            hold.push(Box::new(t2));
+            r
+        }
         OwnKind::Vec => {
             let v = u.own_vec(x);
             let shape_ok = v.len() == 3 && matches!(v[0], Ok(n) if *n == 1) && v[1].is_err() && matches!(v[2], Ok(n) if *n == 3);
@@ -125,6 +132,7 @@ fn kind_of(sp: &Special) -> Option<(OwnKind, u32, bool)> {
         Special::OwnTup { id, .. } => Some((OwnKind::Tup, *id, false)),
         Special::OwnTup1 { id } => Some((OwnKind::Tup1, *id, true)),
         Special::OwnVec { id } => Some((OwnKind::Vec, *id, true)),
+        Special::OwnTup3 { id } => Some((OwnKind::Tup3, *id, true)),
         _ => None,
     }
 }
@@ -143,6 +151,7 @@ pub fn gen_c12(base_seed: u64, batch: &str, run: u64, rng: &mut Rng) -> Scenario
         Special::OwnTup { quant: *rng.pick(&[Quant::N(2), Quant::N(3), Quant::AtLeast(1), Quant::Unq]), id: 105 },
         Special::OwnTup1 { id: 106 },
         Special::OwnVec { id: 107 },
+        Special::OwnTup3 { id: 108 },
     ];
     // OwnMulti through some_call needs an explicit multi-use quantifier
     if let Special::OwnMulti { quant, each_call, .. } = &mut pool[1] {
@@ -152,7 +161,8 @@ pub fn gen_c12(base_seed: u64, batch: &str, run: u64, rng: &mut Rng) -> Scenario
     }
     rng.shuffle(&mut pool);
     pool.truncate(rng.range(1, 3));
-    let cfg = Config { specials: pool.clone(), ..Default::default() };
+    // partial mocks: a spent single-use value must still panic, not fall through to the real function
+    let cfg = Config { specials: pool.clone(), partial: rng.chance(1, 3), ..Default::default() };
     let n_threads = rng.range(1, 4);
     let mut threads: Vec<Vec<Op>> = vec![vec![]; n_threads];
     let share_original = rng.chance(1, 3);
@@ -265,6 +275,16 @@ pub fn check_c12(scn: &Scenario) -> Checked {
             }
         }
         if single {
+            // handed to exactly one caller: if anybody asked (and no fault interfered), somebody got it
+            let clean = reqs.iter().all(|o| matches!(o.result, OpResult::Value(_) | OpResult::Panicked(_)));
+            if clean && !reqs.is_empty() && delivered.is_empty() {
+                violations.push(v(
+                    "C12",
+                    "single-use-delivered-to-exactly-one",
+                    key.clone(),
+                    format!("{} request(s) were made for the single-use value {id} and every one of them failed: {:?}", reqs.len(), reqs.iter().map(|o| &o.result).collect::<Vec<_>>()),
+                ));
+            }
             if delivered.len() > 1 {
                 violations.push(v("C12", "single-use-delivered-once", key.clone(), format!("single-use value {id} was handed to {} callers", delivered.len())));
             }
@@ -316,7 +336,7 @@ pub fn check_c12(scn: &Scenario) -> Checked {
                         // within the quantified count (or unbounded): must not fail
                         let sequential = reqs.iter().all(|p| p.end_step < o.start_step || p.start_step >= o.start_step);
                         let within = bound.map(|b| (k as u32) < b).unwrap_or(true);
-                        if within && sequential && msg.contains("Cannot return value more than once") {
+                        if within && sequential {
                             violations.push(v("C12", "repeated-use-keeps-the-original", key.clone(), format!("request #{} for the multi-use value {id} failed: {msg}", k + 1)));
                             break;
                         }
